@@ -96,7 +96,11 @@ func runCrashCase(c *core.Ctx, sig, work string, cfg crashConfig, idx int, name 
 	s.KillAt, s.KillClass = killAt, killClass
 	writeSpec(s, specPath)
 	defer os.RemoveAll(filepath.Dir(specPath))
-	out, timedOut, _ := runChild(90*time.Second, prefix, c.ID, "--child-crash", specPath)
+	limit := 90 * time.Second
+	if len(prefix) > 0 {
+		limit = 240 * time.Second // strace -f slows the child several times
+	}
+	out, timedOut, _ := runChild(limit, prefix, c.ID, "--child-crash", specPath)
 	if timedOut {
 		c.Inconclusive(fmt.Sprintf("workload child timed out (%s, kill at %d %s)", cfg.name, killAt, killClass))
 		c.Sample(map[string]any{"timeout_output_tail": tailStr(out, 3000)})
